@@ -462,3 +462,54 @@ def c03_r8(ctx):
                    loc=f.loc if f else cls.loc)
     if n < 12:
         raise AnalysisError("only %d reader classes found" % n)
+
+
+@rule("C03", "R9", "K2", "an open reader is re-used for a segment only if the segment's deletions have not changed",
+      min_instances=1, also=("C07",),
+      clause="Segments compare equal by id, and a commit may delete documents from a segment it keeps. In FileIndex._reader every "
+             "place that takes a reader out of the `reusable` map (reusable[seg], .pop(seg), .get(seg)) and hands it to the new reader "
+             "is dominated by a comparison of the two segments' deleted documents; otherwise refresh() after a delete-only commit keeps "
+             "returning the deleted documents.")
+def c03_r9(ctx):
+    prog = ctx.prog
+    f = prog.method("index.FileIndex", "_reader", inherited=False)
+    ctx.saw(f)
+    n = 0
+    # the closure (or loop) that picks a reader for a segment
+    scopes = [x for x in ast.walk(f.node) if isinstance(x, ast.FunctionDef) and x is not f.node] or [f.node]
+    for sc in scopes + ([f.node] if scopes != [f.node] else []):
+        takes = []
+        for x in ast.walk(sc):
+            if isinstance(x, ast.Subscript) and isinstance(x.ctx, ast.Load) and norm.canon(x.value) == "reusable":
+                takes.append(x)
+            elif isinstance(x, ast.Call) and isinstance(x.func, ast.Attribute) and x.func.attr in ("pop", "get") and norm.canon(x.func.value) == "reusable":
+                takes.append(x)
+        if not takes:
+            continue
+        n += len(takes)
+        compares = [c for c in ast.walk(sc) if isinstance(c, ast.Compare) and "deleted" in norm.canon(c)]
+        # returned without the comparison in force?
+        rets = [r for r in ast.walk(sc) if isinstance(r, ast.Return) and r.value is not None and not isinstance(r.value, ast.Call)]
+        guarded = True
+        if not compares:
+            guarded = False
+        else:
+            parents = {}
+            for p_ in ast.walk(sc):
+                for ch in ast.iter_child_nodes(p_):
+                    parents[id(ch)] = p_
+            for r in rets:
+                x = r
+                ok = False
+                while id(x) in parents:
+                    par = parents[id(x)]
+                    if isinstance(par, ast.If) and "deleted" in norm.canon(par.test) and any(r is y for b in par.body for y in ast.walk(b)):
+                        ok = True
+                    x = par
+                if not ok:
+                    guarded = False
+        ctx.ob(f, guarded, "a re-used reader is returned only under a comparison of the segments' deleted documents",
+               detail="%d site(s) take a reader out of `reusable`; comparisons on deletions: %d" % (len(takes), len(compares)),
+               loc=ctx.nodeloc(f, takes[0]))
+    if n < 1:
+        raise AnalysisError("FileIndex._reader no longer re-uses readers through `reusable`")
